@@ -61,7 +61,7 @@ def check_setters(ctx, f, R):
         ctx.add('U6.setter-preserves-other-settings', nm, where, not lost,
                 '%s() does not only set its own field `%s`: %s - what was set before it in the builder chain is silently dropped (LdapConnSettings::new().<the other setter>(x).%s(..) behaves as if <the other setter> had never been called)' % (
                     nm, eff['own'], '; '.join(lost), nm))
-    ctx.floor('U6', 'builder methods of the settings struct evaluated', n, 3)
+    ctx.floor('U6', 'builder methods of the settings struct evaluated', n, 2)      # without a TLS back end: set_conn_timeout, set_std_stream
 
 def run(ctx):
     f = ctx.facts
